@@ -766,6 +766,14 @@ func runC04(c *Ctx) {
 					}
 				}
 			})
+			if !okFresh {
+				// the same requirement without the loop-variable shape: knowing what is known at the wait (the Create failed
+				// with ErrExist), some path leads back to Create - a loop test on the stale error would cut every one of them
+				pw, perr := (ir.PathQuery{Fn: fn, From: in, FromFacts: true, Target: func(x ssa.Instruction, _ *ir.Valuation) bool {
+					return r.storageCall(x, "Create") != nil
+				}}).Find()
+				okFresh = perr == nil && pw != nil
+			}
 			c.Decide("C04.R3", fn, "loop continues on a fresh ctx.Err()", in, okFresh, "after the wait the loop variable still holds the stale ErrExist: the loop ends and the hand-off is lost")
 		})
 	}
